@@ -23,6 +23,28 @@ int main() {
       } catch (std::length_error &e) {
         std::cout << "LEN\n";
       }
+    } else if (t[0] == "D2") {
+      // decode twice into the SAME output string (callers such as base64_number reuse it):
+      // the second result must not depend on the first
+      std::string first = t.size() > 1 && t[1] != "-" ? hx::unhex(t[1]) : std::string();
+      std::string second = t.size() > 2 && t[2] != "-" ? hx::unhex(t[2]) : std::string();
+      try {
+        preprocess::base64_decode(util::StringPiece(first.data(), first.size()), out);
+      } catch (...) {}
+      try {
+        preprocess::base64_decode(util::StringPiece(second.data(), second.size()), out);
+        std::cout << "OK " << hx::hex(out) << "\n";
+      } catch (util::Exception &e) {
+        std::cout << "BAD\n";
+      } catch (std::length_error &e) {
+        std::cout << "LEN\n";
+      }
+    } else if (t[0] == "E2") {
+      std::string first = t.size() > 1 && t[1] != "-" ? hx::unhex(t[1]) : std::string();
+      std::string second = t.size() > 2 && t[2] != "-" ? hx::unhex(t[2]) : std::string();
+      preprocess::base64_encode(util::StringPiece(first.data(), first.size()), out);
+      preprocess::base64_encode(util::StringPiece(second.data(), second.size()), out);
+      std::cout << "OK " << hx::hex(out) << "\n";
     } else {
       std::cout << "?\n";
     }
